@@ -1147,7 +1147,13 @@ class Interp:
     def _ev_BinOp(self, e, st, mod):
         l = self.eval(e.left, st, mod)
         r = self.eval(e.right, st, mod)
-        return self.binop(e.op, l, r, st, e)
+        hook = getattr(self, "value_hook", None)
+        if hook is not None and isinstance(e.op, (ast.Div, ast.FloorDiv, ast.Mod)):
+            hook(st, e.right, r, "denominator")
+        v = self.binop(e.op, l, r, st, e)
+        if hook is not None:
+            hook(st, e, v, "value")
+        return v
 
     def _ev_Subscript(self, e, st, mod):
         base = self.eval(e.value, st, mod)
@@ -1202,6 +1208,9 @@ class Interp:
                 self._adopt(st, outs[0].state)
                 return outs[0].value
             raise _Fork(key, outs)
+        hook = getattr(self, "value_hook", None)
+        if hook is not None:
+            hook(st, e, r, "value")
         return r
 
     def _adopt(self, st, other):
